@@ -372,6 +372,84 @@ def c05_streams(ctx):
 
 
 # ------------------------------------------------------------------------------------------------
+# C10 / C11
+
+def random_text(ctx, n=None):
+    rng = ctx.rng
+    wide = wide_alphabet(ctx)
+    up = ctx.facts["upper"]
+    specials = [chr(int(k)) for k in rng.sample(sorted(up.keys()), min(40, len(up)))]
+    pool = list(wide) + specials
+    n = rng.randrange(0, 30) if n is None else n
+    return "".join(rng.choice(pool) for _ in range(n))
+
+
+def variant(ctx, t):
+    """Insert whitespace anywhere and flip the case of ASCII letters."""
+    rng = ctx.rng
+    out = []
+    for ch in t:
+        while rng.random() < 0.2:
+            out.append(chr(rng.choice(ctx.facts["ws"])))
+        if ch.isascii() and ch.isalpha() and rng.random() < 0.5:
+            ch = ch.swapcase()
+        out.append(ch)
+    while rng.random() < 0.3:
+        out.append(chr(rng.choice(ctx.facts["ws"])))
+    return "".join(out)
+
+
+def c10_streams(ctx):
+    rng = ctx.rng
+    n = 150 if ctx.quick else 4000
+    for _ in range(n):
+        t = random_text(ctx)
+        yield Case("corr", "clean", [enc(t)], "clean-random", True)
+        yield Case("corr", "clean", [enc(t.lower())], "clean-random", True)
+    # every whitespace code point and every special-casing code point on its own and embedded
+    for c in ctx.facts["ws"]:
+        yield Case("corr", "clean", [enc("A" + chr(c) + "b")], "clean-ws", True)
+    ups = sorted(int(k) for k in ctx.facts["upper"].keys())
+    for c in (ups if not ctx.quick else rng.sample(ups, 150)):
+        yield Case("corr", "clean", [enc("x" + chr(c) + "y")], "clean-upper", True)
+    texts = []
+    for cc in (countries(ctx) if not ctx.quick else rng.sample(countries(ctx), 30)):
+        texts.append(valid_iban(ctx, cc))
+    texts += [random_bic(ctx) for _ in range(30 if ctx.quick else 300)]
+    texts += [random_text(ctx) for _ in range(40 if ctx.quick else 600)]
+    texts += ["", "DE", "GENOD", "GENODEM1G", "A", "DE89 3704", "ß", "ǆ"]
+    for t in texts:
+        for _ in range(2):
+            v = variant(ctx, t)
+            yield Case("prop", "spec_variant_same", [enc(t), enc(v)], "variants", True, "member")
+        yield Case("prop", "iban_formatted_rt", [enc(t)], "iban-formatted", True)
+        yield Case("corr", "iban_formatted", [enc(t)], "iban-formatted", True)
+        yield Case("prop", "bic_formatted_rt", [enc(t)], "bic-formatted", True)
+        yield Case("corr", "bic_parts", [enc(t)], "bic-parts", True)
+
+
+def c11_streams(ctx):
+    rng = ctx.rng
+    names = ";".join(enc(x) for x in ctx.facts["components"])
+    n = 2 if ctx.quick else 12
+    for cc in countries(ctx):
+        for _ in range(n):
+            v = valid_iban(ctx, cc)
+            yield Case("prop", "iban_decomp", [enc(v), names], "iban-decomp", True)
+            yield from both("iban_new", "spec_iban_accept", [enc(v), "0", "0"], "iban-valid", True)
+    # unvalidated objects: short, over-long, unknown country (the model must agree on every accessor)
+    for t in ["", "D", "DE", "DE8", "DE89", "DE893", "XX89370400440532013000", "DE8937040044053201300",
+              "DE89370400440532013000000", "de89 3704 0044 0532 0130 00"] + [random_text(ctx) for _ in range(20)]:
+        yield Case("corr", "iban_decomp", [enc(t), names], "iban-decomp-unvalidated", True)
+    for _ in range(40 if ctx.quick else 400):
+        b = random_bic(ctx)
+        yield Case("prop", "bic_parts", [enc(b)], "bic-parts", True)
+        yield Case("prop", "spec_bic_accept", [enc(b), "0"], "bic-valid", True)
+    for t in ["", "GENO", "GENODE", "GENODEM", "GENODEM1G", "GENODEM1GLSX"]:
+        yield Case("corr", "bic_parts", [enc(t)], "bic-parts-unvalidated", True)
+
+
+# ------------------------------------------------------------------------------------------------
 # known findings
 
 def match_known(v: dict, known: list):
@@ -402,6 +480,19 @@ PREDICATES = {}
 
 
 REGISTRY = {
+    "C10": {
+        "streams": c10_streams,
+        "rule": "random Unicode texts (all \\s code points, special-casing letters, non-ASCII digits) through clean() vs the model; "
+                "valid IBANs/BICs and random texts x random whitespace insertions (all kinds) x ASCII case flips: validated and "
+                "unvalidated IBAN/BIC construction must give the same outcome class and equal objects (==, hash, compact); "
+                "formatted form vs model and parse-back equality",
+    },
+    "C11": {
+        "streams": c11_streams,
+        "rule": "per country: valid IBANs; country code, check digits, BBAN, all eight components via IBAN and BBAN accessors "
+                "(must agree) and IBAN.from_bban(cc, bban) vs the model's slices of the published positions; unvalidated and "
+                "malformed objects (correspondence); BIC parts for valid and irregular lengths",
+    },
     "C05": {
         "streams": c05_streams,
         "rule": "the C01 and C04 input families plus multi-defect mutations (2-4 random edits of a valid IBAN); per text the "
